@@ -73,7 +73,9 @@ func AsProbes() []AsProbe {
 			if !ok {
 				return false, "", nil
 			}
-			return ok, fmt.Sprintf("%#v", *x), x
+			// the As method builds a fresh target object on every call:
+			// only its value is comparable between two calls
+			return ok, fmt.Sprintf("%#v", *x), nil
 		}},
 		{"interface{Timeout()bool}", func(e error, as func(error, interface{}) bool) (bool, string, error) {
 			var x timeouter
